@@ -1,5 +1,5 @@
 """C16 — sessions are isolated from one another and replay deterministically."""
-import os, sys, json
+import shutil, os, sys, json
 import vlib
 from checks import session_common as sc
 
@@ -88,8 +88,14 @@ def gen_stock_ops(rng, n):
             ops.append("key %d 0" % rng.choice(PUNCT))
         elif r < 0.80:
             ops.append("key %d 0" % rng.choice([sc.XK["space"], sc.XK["Return"], sc.XK["BackSpace"], sc.XK["Escape"], sc.XK["Down"], sc.XK["Next"]]))
-        elif r < 0.86:
+        elif r < 0.84:
             ops.append("option %s %d" % (rng.choice(["ascii_mode", "full_shape", "ascii_punct", "zh_simp"]), rng.randrange(2)))
+        elif r < 0.86:
+            # key_binder hotkeys Control+Shift+2..5 = option toggles.  NOT Control+Shift+1 (`select: .next`): it applies the
+            # second entry of the schema-switcher menu, whose order is the persisted recency list that every session's
+            # schema change updates — the property excludes the switcher menu (on the unchanged tree two sessions pressing
+            # it alternately already see each other's choices)
+            ops.append("key %d 5" % ord(rng.choice("2345")))
         elif r < 0.93:
             ops.append("read_commit")
         else:
@@ -234,21 +240,38 @@ def run(c):
     # ---- stock components (punctuator, ascii_composer, recognizer, key_binder, script/table translators without
     # learning): no model, transcripts solo vs interleaved vs replayed only
     from checks import c01_common as c1
-    fws = c1.make_full_workspace(os.path.join(c.work, "fws"), user_dict=False)
+    tpl = c1.make_full_workspace(os.path.join(c.work, "fws_tpl"), user_dict=False, second_prism=True)
+    sc.run_impl(exe, tpl, _write(c, "warm", "new\nschema vs_full\nnew\nschema vs_full2\n"))    # deploy once
+    shutil.rmtree(os.path.join(tpl, "log"), ignore_errors=True)
+    fresh_n = [0]
+
+    class Fresh(str):
+        pass
+
+    def fresh():
+        # every run starts from the same persisted settings (user.yaml of the template): hotkeys and schema changes save options
+        fresh_n[0] += 1
+        d = os.path.join(c.work, "fws%d" % fresh_n[0])
+        shutil.copytree(tpl, d)
+        return d
     st["stock_groups"] = 0
     for g in range(max(2, groups // 3)):
         n_s = 3
         scripts = [gen_stock_ops(c.rng, n_ops) for _ in range(n_s)]
-        events = [("new", k, "vs_full") for k in range(n_s)]
+        # all sessions exist before the first call (what is persisted at creation is the template's for each of them)
+        events = [("new", k, c.rng.choice(["vs_full", "vs_full", "vs_full2"])) for k in range(n_s)]
         pos = [0] * n_s
         while any(pos[k] < len(scripts[k]) for k in range(n_s)):
             k = c.rng.choice([k for k in range(n_s) if pos[k] < len(scripts[k])])
             events.append(("op", k, scripts[k][pos[k]]))
             pos[k] += 1
         script, index = to_script([], events)
-        rc, out = sc.run_impl(exe, fws, _write(c, "fs%d" % g, script))
+        d1, d2 = fresh(), fresh()
+        rc, out = sc.run_impl(exe, d1, _write(c, "fs%d" % g, script))
         impl = [l for l in out.splitlines() if l.startswith("ret=") or l.startswith("ids ")]
-        rc2, out2 = sc.run_impl(exe, fws, _write(c, "fs%d" % g, script))
+        rc2, out2 = sc.run_impl(exe, d2, _write(c, "fs%d" % g, script))
+        shutil.rmtree(d1, ignore_errors=True)
+        shutil.rmtree(d2, ignore_errors=True)
         impl2 = [l for l in out2.splitlines() if l.startswith("ret=") or l.startswith("ids ")]
         st["stock_groups"] += 1
         st["events"] += len(index)
@@ -261,8 +284,9 @@ def run(c):
         ti = transcripts(index, impl)
         for k in sorted(ti):
             sscript, sindex = to_script([], solo_events(events, k))
-            sscript = sscript.replace("schema vs_script", "schema vs_full")
-            rc3, out3 = sc.run_impl(exe, fws, _write(c, "fso%d_%d" % (g, k), sscript))
+            d3 = fresh()
+            rc3, out3 = sc.run_impl(exe, d3, _write(c, "fso%d_%d" % (g, k), sscript))
+            shutil.rmtree(d3, ignore_errors=True)
             simpl = [l for l in out3.splitlines() if l.startswith("ret=") or l.startswith("ids ")]
             ts = transcripts(sindex, simpl).get(k, [])
             st["sessions"] += 1
@@ -292,8 +316,28 @@ def replay(c, r):
         print("replay: no concrete trace in this file:", r.get("what"))
         return 1
     exe = sc.build()
-    ws = sc.make_workspace(os.path.join(c.work, "ws"), list(sc.SCHEMAS))
     events = [tuple(e) for e in r["events"]]
+    if r.get("schema") == "vs_full":
+        # stock-component case: interleaved twice and the named session solo, each from a fresh copy of the deployed template
+        from checks import c01_common as c1
+        tpl = c1.make_full_workspace(os.path.join(c.work, "fws_tpl"), user_dict=False, second_prism=True)
+        sc.run_impl(exe, tpl, _write(c, "warm", "new\nschema vs_full\nnew\nschema vs_full2\n"))
+        runs = []
+        script, index = to_script([], events)
+        ks = [r["session"]] if r.get("session") is not None else sorted({e[1] for e in events if e[0] == "new"})
+        for tag, (sx, ix) in [("a", (script, index)), ("b", (script, index))] + [("s%d" % k, to_script([], solo_events(events, k))) for k in ks]:
+            d = os.path.join(c.work, "rp_" + tag)
+            shutil.copytree(tpl, d)
+            rc, out = sc.run_impl(exe, d, _write(c, "rp_" + tag, sx))
+            runs.append((tag, rc, transcripts(ix, [l for l in out.splitlines() if l.startswith("ret=") or l.startswith("ids ")])))
+        bad = any(rc for _, rc, _ in runs) or runs[0][2] != runs[1][2]
+        for (tag, rc, t), k in zip(runs[2:], ks):
+            if [x[1] for x in t.get(k, [])] != [x[1] for x in runs[0][2].get(k, [])]:
+                bad = True
+                print("session %d: solo and interleaved transcripts differ" % k)
+        print("stock replay: rcs=%s replay_equal=%s" % ([rc for _, rc, _ in runs], runs[0][2] == runs[1][2]))
+        return 1 if bad else 0
+    ws = sc.make_workspace(os.path.join(c.work, "ws"), list(sc.SCHEMAS))
     script, index = to_script([tuple(x) for x in r["table"]], events)
     rc, out, impl, model = sc.run_both(c, exe, ws, script, "rp")
     bad = rc != 0 or impl != model
